@@ -229,9 +229,11 @@ def render_class(c, defined=None, strip_lazy=False, twin_dialect=None, fam=None)
                 s += f" = {render_value(f['d'])}"
             lines.append(s)
         return "\n".join(lines) + "\n"
-    bases = list(c.get("bases", []))
+    base_args = c.get("base_args") or {}
+    bases = [b + ("[" + ", ".join(render_type(x, defined) for x in base_args[b]) + "]"
+                  if b in base_args else "") for b in c.get("bases", [])]
     bases += [MIXINS[m][0] for m in c.get("mixins", [])]
-    if c.get("tvars"):
+    if c.get("tvars") and not base_args:
         bases.append("Generic[" + ", ".join(c["tvars"]) + "]")
     dc_args = "(kw_only=True)" if c.get("kw_only") else ""
     lines = [f"@dataclass{dc_args}", f"class {c['name']}" + (f"({', '.join(bases)})" if bases else "") + ":"]
